@@ -21,7 +21,11 @@ RULE = ('truncate: spectra of length 1-12 (0 and a few special streams: ulp-neig
         'oracle; non-trivial = n >= 2 and (something discarded or a constraint ignored); distinct by content hash. '
         'TruncationError: from_S / from_norm / chains of + on few-bit dyadics, compared exactly. Decompositions: '
         'svd_theta, eigh_rho, decompose_theta_qr_based on random npc Arrays (no charge, U1, Z2, Z3, U1xZ2; blocked and '
-        'unsorted legs; real/complex; imposed degenerate spectra; nonzero qtotal / regauged twins), dense oracle.')
+        'unsorted legs; real/complex; imposed degenerate spectra; nonzero qtotal / regauged twins), dense oracle; '
+        'svd_theta with qtotal_LR (left/right/both/inconsistent), inner_labels, rank-deficient input, >100 values of which '
+        'one survives; eigh_rho with UPLO (other triangle spoiled) and every sort; QR-based with all compute_err x '
+        'return_both_T combinations, expand None/0, min_block_increase 0-2, both sweep directions, eig-based variant, '
+        'two-site tensors cut out of random finite/infinite/segment MPS; _eig_based_svd called directly.')
 TRUSTED = ['Lean 4.33 kernel; axioms of every C15_* theorem ⊆ {propext, Classical.choice, Quot.sound}',
            'hand-written model TenpyModel/C15/Truncate.lean, tied to tenpy/linalg/truncation.py by this correspondence run',
            'harness: float -> exact Fraction conversion, JSON line driver lean/drivers/C15.lean, ambiguity detector '
@@ -42,6 +46,14 @@ def run(ctx):
     res.merge(c15_truncate.run(ctx))
     res.merge(c15_err.run(ctx))
     res.merge(c15_decomp.run(ctx, _split(ctx)))
+    res.extra['anchor_coverage_note'] = (
+        '2026-09-26, quick tier, seed 0, coverage.py --branch on tenpy/linalg/truncation.py: before the coverage round '
+        '88% (261 statements, 26 missed; 86 branches, 12 partial), after 99% (0 statements missed, 1 partial branch: '
+        'the for-loop of _qr_theta_Y0 can only end through its break for a nonzero theta). Newly exercised: '
+        'svd_theta qtotal_LR/inner_labels/zero singular values/catastrophic-reduction diagnostic/Config options, '
+        'eigh_rho UPLO/sort/catastrophic branch, decompose_theta_qr_based compute_err x return_both_T combinations, '
+        'expand None/0, two-site tensors of finite/infinite/segment MPS, _eig_based_svd all need_U/need_Vd/trunc_params '
+        'branches, TruncationError.copy/__repr__/default.')
     res.extra['parts'] = ['truncate (model+oracle)', 'TruncationError (model+oracle)', 'decompositions (dense oracle)']
     return res
 
